@@ -29,7 +29,7 @@ MINE = lambda pred: pred in c04.START_PREDS or pred == 'full_data_object_returne
 
 
 def gen_cases(tier, seed):
-    n = {'quick': 5000, 'thorough': 500000}[tier]
+    n = {'quick': 18000, 'thorough': 500000}[tier]
     out = []
     kinds = ['start', 'start', 'start', 'forms', 'rho', 'both', 'wrap']
     for k in range(n):
